@@ -16,6 +16,7 @@ import (
 	"time"
 
 	"github.com/gogo/protobuf/proto"
+	pb "github.com/ipfs/boxo/ipld/unixfs/pb"
 	"github.com/ipfs/go-cid"
 	"github.com/ipfs/go-unixfsnode/data/builder"
 	"github.com/ipfs/go-unixfsnode/file"
@@ -220,6 +221,108 @@ func TestC17(t *testing.T) {
 		Family    string
 	}
 	dirs := []dirCfg{{8, 400, false, "ascii"}, {8, 400, true, "ascii"}, {16, 600, false, "mixed"}, {8, 2000, false, "ascii"}, {256, 3000, false, "ascii"}, {8, 6, false, "crafted"}, {1024, 4000, true, "mixed"}, {32, 300, false, "hexprefix"}}
+	// link lists with nameless and repeated links, listed and looked up by several goroutines - these
+	// cases come first, and nothing lists such a node sequentially beforehand, so that whatever is
+	// set up lazily on first use is set up under concurrency
+	for k := 0; k < 16; k++ {
+		k := k
+		r.Case(fmt.Sprintf("nameless-links/%d", k), map[string]any{"goroutines": 8, "rounds": rounds}, func(c *mon.Case) {
+			rr := c.Rand()
+			st := store.New()
+			type lk struct {
+				name string
+				c    cid.Cid
+			}
+			var want []lk
+			var links []pbLinkSpec
+			for i := 0; i < 12+rr.Intn(20); i++ {
+				cc := st.PutBlock(1, cid.Raw, []byte(fmt.Sprintf("nl-%d-%d", k, i)))
+				spec := pbLinkSpec{Tsize: u64p(7), Cid: cc}
+				nm := ""
+				if i%3 != 1 {
+					nm = fmt.Sprintf("e%d", i%7)
+					spec.Name = strp(nm)
+				}
+				links = append(links, spec)
+				want = append(want, lk{nm, cc})
+			}
+			first := map[string]cid.Cid{}
+			for _, w := range want {
+				if _, ok := first[w.name]; !ok {
+					first[w.name] = w.c
+				}
+			}
+			dirT := pb.Data_Directory
+			var data []byte
+			hasData := false
+			if k%2 == 0 {
+				data, hasData = mustMarshal(&pb.Data{Type: &dirT}), true // plain directory; otherwise the generic link map
+			}
+			pn, err := decodePB(encodePB(data, hasData, links))
+			if err != nil {
+				c.Harness("decode: %v", err)
+				return
+			}
+			ls := st.LinkSystem(true)
+			for round := 0; round < rounds; round++ {
+				hs := &hookState{seed: c.Seed + uint64(round)}
+				node, err := reify(ls, pn)
+				if err != nil || node.Kind() != datamodel.Kind_Map {
+					c.Violation("C17|reify", "link list: %v", err)
+					return
+				}
+				res := runRound(c, node, 8, hs, int64(c.Seed)+int64(round), func(g int, rr *rand.Rand, node ipld.Node, res *c17Result) {
+					for i := 0; i < 10; i++ {
+						atomic.AddInt64(&res.ops, 1)
+						if i%2 == 0 {
+							it := node.MapIterator()
+							j := 0
+							for !it.Done() {
+								kk, v, err := it.Next()
+								if err != nil || j >= len(want) {
+									res.diff("listing: error %v at pair %d", err, j)
+									break
+								}
+								ks, _ := kk.AsString()
+								if got, _ := asCid(v); ks != want[j].name || !got.Equals(want[j].c) {
+									res.diff("listing pair %d is %q -> %v on the shared node, %q -> %v alone", j, ks, got, want[j].name, want[j].c)
+									break
+								}
+								j++
+							}
+							if j != len(want) {
+								res.diff("listing yields %d pairs on the shared node, %d alone", j, len(want))
+							}
+						} else {
+							nm := want[rr.Intn(len(want))].name
+							v, err := node.LookupByString(nm)
+							if err != nil {
+								res.diff("lookup of %q failed on the shared node: %v", nm, err)
+								continue
+							}
+							if got, _ := asCid(v); !got.Equals(first[nm]) {
+								res.diff("lookup of %q gives %v on the shared node, %v alone", nm, got, first[nm])
+							}
+						}
+					}
+				})
+				c.Count("rounds", 1)
+				c.Count("ops_compared", res.ops)
+				c.Count("overlapped_rounds", 1)
+				if res.stuck || res.deadlock {
+					c.Violation("C17|deadlock|"+res.deadSite, "link list with nameless links: %s", res.deadMsg)
+					return
+				}
+				for _, dmsg := range res.diffs {
+					c.Violation("C17|result-differs|link-list", "round %d: %s", round, dmsg)
+				}
+				c.Sig(fmt.Sprintf("nameless-links|dir=%v", hasData), true)
+				if len(res.diffs) > 0 {
+					return
+				}
+			}
+		})
+	}
 	for di, d := range dirs {
 		for _, G := range []int{2, 4, 8, 16} {
 			for _, inject := range []bool{true, false} {
